@@ -114,22 +114,12 @@ Qed.
 Theorem close_writer_any w : fsafe (close_writer hash w).
 Proof.
   unfold fsafe, close_writer. destruct (wf_sri_cpath _ (wf_sri_computed hash HL (w_algo w) (w_data w))) as [cp ->].
-  cbn [fpost]. intros r0 _.
-  assert (fpost (okq T) (bind (match w_map w with
-                   | Some sz => if w_pos w <? sz then step_ok (Truncate (w_tmp w) (w_pos w)) else Ret (Ok tt)
-                   | None => Ret (Ok tt) end) (fun rt => match rt with
-            | Ok _ => Do (Rename (w_tmp w) (InCache cp)) (fun r => match r with
-                  | RErr _ => Do (Exists (InCache cp)) (fun r2 => match r2 with
-                        | RBool true => unlink_quiet (w_tmp w) (Ok (sri_of hash (w_algo w) (w_data w)))
-                        | _ => unlink_quiet (w_tmp w) (Err EIoErr) end)
-                  | _ => Ret (Ok (sri_of hash (w_algo w) (w_data w))) end)
-            | _ => unlink_quiet (w_tmp w) (Err EIoErr) end))) as Hrest.
-  { apply (fpost_bind (okq T)).
-    - destruct (w_map w) as [sz|]; [destruct (w_pos w <? sz)|]; try exact I. apply fsafe_step_ok.
-    - intros rt _. destruct rt; try (apply fsafe_unlink_quiet; exact I).
-      cbn [fpost]. intros r _. destruct r; try exact I. cbn [fpost]. intros r2 _.
-      destruct r2 as [| |[|]| | | |]; apply fsafe_unlink_quiet; exact I. }
-  destruct r0; try exact Hrest. apply fsafe_unlink_quiet. exact I.
+  apply (fpost_bind (okq T)).
+  - unfold trim. destruct (w_map w) as [sz|]; [destruct (w_pos w <? sz)|]; try exact I. apply fsafe_step_ok.
+  - intros rt _. destruct rt; try (apply fsafe_unlink_quiet; exact I).
+    unfold publish. cbn [fpost]. intros r0 _. destruct r0; try (apply fsafe_unlink_quiet; exact I).
+    all: cbn [fpost]; intros r _; destruct r; try exact I; cbn [fpost]; intros r2 _;
+      destruct r2 as [| |[|]| | | |]; apply fsafe_unlink_quiet; exact I.
 Qed.
 
 Theorem commit_any w now : fsafe (commit hash w now).
@@ -234,49 +224,50 @@ Proof.
   - right. inversion Hn; subst. auto.
 Qed.
 
-Lemma close_writer_fsteps f w : WInv f w -> fsteps (csafe hash) (close_writer hash w) f.
+Lemma publish_fsteps f w sri :
+  wtmp_ok w -> lookup f (w_tmp w) = Some (File (w_data w)) ->
+  fsteps (csafe hash) (publish w (cpath hash (w_algo w) (w_data w)) sri) f.
 Proof.
-  intros Hw. pose proof (WInv_wtmp f w Hw) as Htmp. destruct Hw as [[n Hn] [Hwr [d [Hl Hm]]]].
-  unfold close_writer. rewrite (content_path_computed hash _ _ HL).
-  set (cp := cpath hash (w_algo w) (w_data w)).
+  intros Htmp Hl. unfold publish. set (cp := cpath hash (w_algo w) (w_data w)).
   assert (forall (r : res integrity) g, fsteps (csafe hash) (unlink_quiet (w_tmp w) r) g) as Hunl.
   { intros r g. apply (all_steps_fsteps csafe'); [apply csafe'_csafe|apply all_unlink_quiet]. }
   cbn [fsteps]. split; [cbn; intros l0 []|]. split; [|intros _ e g _; apply Hunl].
-  assert (lookup (snd (exec (MkdirAll (parent cp)) f)) (w_tmp w) = Some (File d)) as Hl1.
+  assert (lookup (snd (exec (MkdirAll (parent cp)) f)) (w_tmp w) = Some (File (w_data w))) as Hl1.
   { rewrite exec_mkdirall. apply mkdirs_keeps. exact Hl. }
   destruct (exec (MkdirAll (parent cp)) f) as [r0 f1]. cbn [fst snd] in *.
-  set (trunc := match w_map w with
-                | Some sz => if w_pos w <? sz then step_ok (Truncate (w_tmp w) (w_pos w)) else Ret (Ok tt)
-                | None => Ret (Ok tt) end).
-  set (cont := fun rt : res unit => match rt with
-            | Ok _ => Do (Rename (w_tmp w) (InCache cp)) (fun r => match r with
-                  | RErr _ => Do (Exists (InCache cp)) (fun r2 => match r2 with
-                        | RBool true => unlink_quiet (w_tmp w) (Ok (sri_of hash (w_algo w) (w_data w)))
-                        | _ => unlink_quiet (w_tmp w) (Err EIoErr) end)
-                  | _ => Ret (Ok (sri_of hash (w_algo w) (w_data w))) end)
-            | _ => unlink_quiet (w_tmp w) (Err EIoErr) end).
-  assert (fsteps (csafe hash) (bind trunc cont) f1) as Hmain.
-  { apply fsteps_bind.
-    - subst trunc. destruct (w_map w) as [sz|]; [destruct (w_pos w <? sz)|]; try exact I.
-      apply (all_steps_fsteps csafe'); [apply csafe'_csafe|]. apply all_steps_step_ok. cbn. intros l0 [<-|[]]. exact Htmp.
-    - intros rt f2 Hr.
-      assert (match rt with Ok _ => lookup f2 (w_tmp w) = Some (File (w_data w)) | _ => True end) as Hafter.
-      { subst trunc. destruct (w_map w) as [sz|].
-        - destruct Hm as [Hlen [Hpos [Htake Hle]]]. destruct (w_pos w <? sz) eqn:Elt.
-          + apply frun_step_ok in Hr as [[-> ->]|[-> _]]; [|exact I].
-            unfold step_ok. cbn [run]. rewrite (exec_truncate f1 _ d _ Hl1). cbn [run fst snd]. rewrite lookup_update_eq, Htake. reflexivity.
-          + inversion Hr; subst. apply N.ltb_ge in Elt. assert (w_pos w = lenN d) as Epos by lia.
-            rewrite Epos, takeN_all in Htake. rewrite Hl1, Htake. reflexivity.
-        - inversion Hr; subst. exact Hl1. }
-      subst cont. cbn beta. destruct rt; try apply Hunl.
-      cbn [fsteps]. split; [cbn [csafe]; intros _ dd Hdd; rewrite Hafter in Hdd; inversion Hdd; subst dd; exists (w_algo w); reflexivity|].
-      split.
-      + destruct (exec (Rename (w_tmp w) (InCache cp)) f2) as [r f3]. cbn [fst snd]. destruct r; try exact I.
-        cbn [fsteps]. split; [cbn; intros l0 []|]. split; [|intros []].
-        destruct (exec (Exists (InCache cp)) f3) as [r2 f4]. cbn [fst snd]. destruct r2 as [| |[|]| | | |]; apply Hunl.
-      + intros _ e g _. cbn [fsteps]. split; [cbn; intros l0 []|]. split; [|intros []].
-        destruct (exec (Exists (InCache cp)) g) as [r2 f4]. cbn [fst snd]. destruct r2 as [| |[|]| | | |]; apply Hunl. }
-  destruct r0; try exact Hmain. apply Hunl.
+  destruct r0; try apply Hunl.
+  all: cbn [fsteps]; split; [cbn [csafe]; intros _ dd Hdd; rewrite Hl1 in Hdd; inversion Hdd; subst dd; exists (w_algo w); reflexivity|].
+  all: split;
+    [destruct (exec (Rename (w_tmp w) (InCache cp)) f1) as [r f3]; cbn [fst snd]; destruct r; try exact I;
+     cbn [fsteps]; split; [cbn; intros l0 []|]; split; [|intros []];
+     destruct (exec (Exists (InCache cp)) f3) as [r2 f4]; cbn [fst snd]; destruct r2 as [| |[|]| | | |]; apply Hunl
+    |intros _ e g _; cbn [fsteps]; split; [cbn; intros l0 []|]; split; [|intros []];
+     destruct (exec (Exists (InCache cp)) g) as [r2 f4]; cbn [fst snd]; destruct r2 as [| |[|]| | | |]; apply Hunl].
+Qed.
+
+(* what the trim leaves in the temp file, in any faulty run of it that answers Ok *)
+Lemma trim_frun f w rt f2 :
+  WInv f w -> frun (trim w) f rt f2 -> match rt with Ok _ => lookup f2 (w_tmp w) = Some (File (w_data w)) | _ => True end.
+Proof.
+  intros [[n Hn] [Hwr [d [Hl Hm]]]] Hr. unfold trim in Hr. destruct (w_map w) as [sz|].
+  - destruct Hm as [Hlen [Hpos [Htake Hle]]]. destruct (w_pos w <? sz) eqn:Elt.
+    + apply frun_step_ok in Hr as [[-> ->]|[-> _]]; [|exact I].
+      unfold step_ok. cbn [run]. rewrite (exec_truncate f _ d _ Hl). cbn [run fst snd]. rewrite lookup_update_eq, Htake. reflexivity.
+    + inversion Hr; subst. apply N.ltb_ge in Elt. assert (w_pos w = lenN d) as Epos by lia.
+      rewrite Epos, takeN_all in Htake. rewrite Hl, Htake. reflexivity.
+  - inversion Hr; subst. exact Hl.
+Qed.
+
+Lemma close_writer_fsteps f w : WInv f w -> fsteps (csafe hash) (close_writer hash w) f.
+Proof.
+  intros Hw. pose proof (WInv_wtmp f w Hw) as Htmp.
+  unfold close_writer. rewrite (content_path_computed hash _ _ HL).
+  assert (forall (r : res integrity) g, fsteps (csafe hash) (unlink_quiet (w_tmp w) r) g) as Hunl.
+  { intros r g. apply (all_steps_fsteps csafe'); [apply csafe'_csafe|apply all_unlink_quiet]. }
+  apply fsteps_bind.
+  - apply (all_steps_fsteps csafe'); [apply csafe'_csafe|apply trim_all; exact Htmp].
+  - intros rt f2 Hr. pose proof (trim_frun f w rt f2 Hw Hr) as Hafter.
+    destruct rt; try apply Hunl. apply publish_fsteps; assumption.
 Qed.
 
 (* a commit in which any steps fail never puts a file that does not match its address under content-v2 *)
@@ -391,6 +382,43 @@ Qed.
 
 (* closing under faults: an Ok answer means the content path holds a file — the writer's own bytes (published by the rename),
    or something that was already there (the rename failed and [exists] said yes) *)
+Lemma publish_faulty_ok f w sri f' :
+  (exists n, w_tmp w = InCache [bs "tmp"; n]) -> lookup f (w_tmp w) = Some (File (w_data w)) ->
+  frun (publish w (cpath hash (w_algo w) (w_data w)) (sri_of hash (w_algo w) (w_data w))) f (Ok sri) f' ->
+  sri = sri_of hash (w_algo w) (w_data w) /\
+  (lookup f' (InCache (cpath hash (w_algo w) (w_data w))) = Some (File (w_data w)) \/
+   resolve f' (InCache (cpath hash (w_algo w) (w_data w))) <> None).
+Proof.
+  intros [n Hn] Hl Hr. unfold publish in Hr. set (cp := cpath hash (w_algo w) (w_data w)) in *.
+  assert (InCache [bs "tmp"; n] <> InCache cp) as Htc by (apply tmp_not_content).
+  apply frun_do_inv in Hr as [Hn1|[_ [e [g0 [_ Hn1]]]]].
+  2: { apply frun_unlink_quiet in Hn1. discriminate. }
+  assert (lookup (snd (exec (MkdirAll (parent cp)) f)) (w_tmp w) = Some (File (w_data w))) as Hl1.
+  { rewrite exec_mkdirall. apply mkdirs_keeps. exact Hl. }
+  destruct (exec (MkdirAll (parent cp)) f) as [r0 f1]. cbn [fst snd] in *.
+  assert (frun (Do (Rename (w_tmp w) (InCache cp)) (fun r => match r with
+                        | RErr _ => Do (Exists (InCache cp)) (fun r2 => match r2 with
+                              | RBool true => unlink_quiet (w_tmp w) (Ok (sri_of hash (w_algo w) (w_data w)))
+                              | _ => unlink_quiet (w_tmp w) (Err EIoErr) end)
+                        | _ => Ret (Ok (sri_of hash (w_algo w) (w_data w))) end)) f1 (Ok sri) f' ->
+          sri = sri_of hash (w_algo w) (w_data w) /\
+          (lookup f' (InCache cp) = Some (File (w_data w)) \/ resolve f' (InCache cp) <> None)) as Hren.
+  { intros Hc. rewrite Hn in *.
+    inversion Hc as [|c1 k1 f3 a1 f3' Hn2|c1 k1 f3 e1 g1 a1 f3' Hf2 Hg2 Hn2]; subst.
+    - remember (exec (Rename (InCache [bs "tmp"; n]) (InCache cp)) f1) as ex eqn:Eex. destruct ex as [r f3].
+      cbn [fst snd] in Hn2. unfold exec in Eex. rewrite Hl1 in Eex.
+      assert ((r = ROk /\ f3 = update (remove f1 (InCache [bs "tmp"; n])) (InCache cp) (File (w_data w))) \/
+              (exists e, r = RErr e /\ f3 = f1)) as [[-> ->]|[e [-> ->]]].
+      { destruct (parent_ok f1 (InCache cp)); [destruct (lookup f1 (InCache cp)) as [[d0| |t0]|]|]; inversion Eex; subst; eauto. }
+      + apply frun_ret in Hn2 as [E1 ->]. inversion E1. split; [reflexivity|]. left. apply lookup_update_eq.
+      + destruct (exists_branch _ _ _ _ _ _ Hn2 Htc) as [E1 E2]. split; [exact E1|right; exact E2].
+    - destruct Hg2 as [->|[]]. destruct (exists_branch _ _ _ _ _ _ Hn2 Htc) as [E1 E2]. split; [exact E1|right; exact E2]. }
+  destruct r0; try (apply Hren; exact Hn1).
+  apply frun_unlink_quiet in Hn1. discriminate.
+Qed.
+
+(* closing under faults: an Ok answer means the content path holds a file — the writer's own bytes (published by the rename),
+   or something that was already there (the rename failed and [exists] said yes) *)
 Theorem close_writer_faulty_ok f w sri f' :
   WInv f w ->
   frun (close_writer hash w) f (Ok sri) f' ->
@@ -398,58 +426,11 @@ Theorem close_writer_faulty_ok f w sri f' :
   (lookup f' (InCache (cpath hash (w_algo w) (w_data w))) = Some (File (w_data w)) \/
    resolve f' (InCache (cpath hash (w_algo w) (w_data w))) <> None).
 Proof.
-  intros Hw Hr. pose proof Hw as [[n Hn] [Hwr [d [Hl Hm]]]].
+  intros Hw Hr. pose proof Hw as [Hn _].
   unfold close_writer in Hr. rewrite (content_path_computed hash _ _ HL) in Hr.
-  set (cp := cpath hash (w_algo w) (w_data w)) in *.
-  assert (InCache [bs "tmp"; n] <> InCache cp) as Htc by (apply tmp_not_content).
-  apply frun_do_inv in Hr as [Hn1|[_ [e [g0 [_ Hn1]]]]].
-  2: { apply frun_unlink_quiet in Hn1. discriminate. }
-  assert (lookup (snd (exec (MkdirAll (parent cp)) f)) (w_tmp w) = Some (File d)) as Hl1.
-  { rewrite exec_mkdirall. apply mkdirs_keeps. exact Hl. }
-  destruct (exec (MkdirAll (parent cp)) f) as [r0 f1]. cbn [fst snd] in *.
-  assert (forall (rt : res unit) f2,
-            (match rt with Ok _ => lookup f2 (w_tmp w) = Some (File (w_data w)) | _ => True end) ->
-            frun (match rt with
-                  | Ok _ => Do (Rename (w_tmp w) (InCache cp)) (fun r => match r with
-                        | RErr _ => Do (Exists (InCache cp)) (fun r2 => match r2 with
-                              | RBool true => unlink_quiet (w_tmp w) (Ok (sri_of hash (w_algo w) (w_data w)))
-                              | _ => unlink_quiet (w_tmp w) (Err EIoErr) end)
-                        | _ => Ret (Ok (sri_of hash (w_algo w) (w_data w))) end)
-                  | _ => unlink_quiet (w_tmp w) (Err EIoErr) end) f2 (Ok sri) f' ->
-            sri = sri_of hash (w_algo w) (w_data w) /\
-            (lookup f' (InCache cp) = Some (File (w_data w)) \/ resolve f' (InCache cp) <> None)) as Hren.
-  { intros rt f2 Hafter Hc. destruct rt as [u|e| | |]; try (apply frun_unlink_quiet in Hc; discriminate).
-    rewrite Hn in *.
-    inversion Hc as [|c1 k1 f3 a1 f3' Hn2|c1 k1 f3 e1 g1 a1 f3' Hf2 Hg2 Hn2]; subst.
-    - remember (exec (Rename (InCache [bs "tmp"; n]) (InCache cp)) f2) as ex eqn:Eex. destruct ex as [r f3].
-      cbn [fst snd] in Hn2. unfold exec in Eex. rewrite Hafter in Eex.
-      assert ((r = ROk /\ f3 = update (remove f2 (InCache [bs "tmp"; n])) (InCache cp) (File (w_data w))) \/
-              (exists e, r = RErr e /\ f3 = f2)) as [[-> ->]|[e [-> ->]]].
-      { destruct (parent_ok f2 (InCache cp)); [destruct (lookup f2 (InCache cp)) as [[d0| |t0]|]|]; inversion Eex; subst; eauto. }
-      + apply frun_ret in Hn2 as [E1 ->]. inversion E1. split; [reflexivity|]. left. apply lookup_update_eq.
-      + destruct (exists_branch _ _ _ _ _ _ Hn2 Htc) as [E1 E2]. split; [exact E1|right; exact E2].
-    - destruct Hg2 as [->|[]]. destruct (exists_branch _ _ _ _ _ _ Hn2 Htc) as [E1 E2]. split; [exact E1|right; exact E2]. }
-  assert (frun (bind (match w_map w with
-                   | Some sz => if w_pos w <? sz then step_ok (Truncate (w_tmp w) (w_pos w)) else Ret (Ok tt)
-                   | None => Ret (Ok tt) end) (fun rt => match rt with
-            | Ok _ => Do (Rename (w_tmp w) (InCache cp)) (fun r => match r with
-                  | RErr _ => Do (Exists (InCache cp)) (fun r2 => match r2 with
-                        | RBool true => unlink_quiet (w_tmp w) (Ok (sri_of hash (w_algo w) (w_data w)))
-                        | _ => unlink_quiet (w_tmp w) (Err EIoErr) end)
-                  | _ => Ret (Ok (sri_of hash (w_algo w) (w_data w))) end)
-            | _ => unlink_quiet (w_tmp w) (Err EIoErr) end)) f1 (Ok sri) f' ->
-          sri = sri_of hash (w_algo w) (w_data w) /\
-          (lookup f' (InCache cp) = Some (File (w_data w)) \/ resolve f' (InCache cp) <> None)) as Hmain.
-  { intros Hb. apply frun_bind in Hb as [rt [f2 [Ht Hc]]]. apply (Hren rt f2); [|exact Hc].
-    destruct (w_map w) as [sz|].
-    - destruct Hm as [Hlen [Hpos [Htake Hle]]]. destruct (w_pos w <? sz) eqn:Elt.
-      + apply frun_step_ok in Ht as [[-> ->]|[-> _]]; [|exact I].
-        unfold step_ok. cbn [run]. rewrite (exec_truncate f1 _ d _ Hl1). cbn [run fst snd]. rewrite lookup_update_eq, Htake. reflexivity.
-      + apply frun_ret in Ht as [-> ->]. apply N.ltb_ge in Elt. assert (w_pos w = lenN d) as Epos by lia.
-        rewrite Epos, takeN_all in Htake. rewrite Hl1, Htake. reflexivity.
-    - apply frun_ret in Ht as [-> ->]. subst d. exact Hl1. }
-  destruct r0; try (apply Hmain; exact Hn1).
-  apply frun_unlink_quiet in Hn1. discriminate.
+  apply frun_bind in Hr as [rt [f2 [Ht Hc]]]. pose proof (trim_frun f w rt f2 Hw Ht) as Hafter.
+  destruct rt; try (apply frun_unlink_quiet in Hc; discriminate).
+  exact (publish_faulty_ok f2 w sri f' Hn Hafter Hc).
 Qed.
 
 (* the whole commit: Ok means the close published (or found) the content, and for a keyed writer the index insert answered Ok
